@@ -30,7 +30,8 @@ def nontrivial(f):
 
 
 def run(sh):
-    n = 400 if sh.tier == 'quick' else 80000
+    # (every case deep-copies the model at each instant with a finished part held: the thorough tier is sized by that)
+    n = 400 if sh.tier == 'quick' else 12000
     engine_line.run_profile(sh, 'C13', 'faults', n, MONITORS, nontrivial)
 
 
